@@ -179,13 +179,13 @@ func classify(stream string, want, got []string) string {
 func coqObs(os []obs) string {
 	xs := make([]string, len(os))
 	for i, o := range os {
-		xs[i] = vlib.App("O", vlib.Nat(o.Space), vlib.Nat(o.Count), tlib.Hs(vlib.UnQs(o.Lines)), tlib.H(vlib.UnQ(o.Pending)))
+		xs[i] = vlib.App("O", vlib.Nat(o.Space), vlib.Nat(o.Count), tlib.LS(vlib.UnQs(o.Lines)), tlib.H(vlib.UnQ(o.Pending)))
 	}
 	return vlib.List(xs)
 }
 
 func coqCase(id uint64, c lrCase) string {
-	return vlib.App("CLR", vlib.N(id), vlib.Nat(c.Size), tlib.Hs(vlib.UnQs(c.Script)), coqObs(c.Obs), tlib.Hs(vlib.UnQs(c.Fin)))
+	return vlib.App("CLR", vlib.N(id), vlib.Nat(c.Size), tlib.LS(vlib.UnQs(c.Script)), coqObs(c.Obs), tlib.LS(vlib.UnQs(c.Fin)))
 }
 
 // compositions of s into non-empty chunks, selected by the bits of mask
